@@ -266,12 +266,14 @@ func (sel *Selection) Peek(consumer interface{}) interface{} {
 //	   sel2 = sel.Constrain("content=config&depth=4")
 //	sel will not have content or depth constraints applies, but sel 2 will
 func (sel *Selection) Constrain(params string) (*Selection, error) {
-	dummy, err := url.Parse("bogus?" + params)
+	// (not URL.Query(): it leaves out the parameters it cannot read, the request would then
+	// be answered as if they had not been given)
+	parsed, err := url.ParseQuery(params)
 	if err != nil {
-		return nil, err
+		return nil, fmt.Errorf("%w. %s", fc.BadRequestError, err)
 	}
 	copy := *sel
-	if err = BuildConstraints(&copy, dummy.Query()); err != nil {
+	if err = BuildConstraints(&copy, parsed); err != nil {
 		return nil, err
 	}
 	copy.Context = copy.Constraints.ContextConstraint(sel)
